@@ -193,6 +193,48 @@ def run(ctx):
                     ctx.violation('aa-log -R differs from GetApparmorLogs', {'log': text[:3000], 'binary': raw[:20], 'library': lib_out[:20]})
         os.remove(p)
     ctx.cov['search']['binary'] = {'logs': min(nbin, len(cases)), 'runs_per_mode': 3, 'nondeterministic': ndiff}
+
+    # ---- journald input (journalctl -o json export): one JSON object per line, the record in MESSAGE; lines of other
+    # units, entries whose MESSAGE is a byte array (journald's form for non-text payloads) and plain text lines come in between
+    import json as _json
+    njd = 40 if ctx.tier == 'quick' else 1200
+    njf = 0
+    foreign = ['-- No entries --', '{"MESSAGE":[27,91,49,109,111,107],"_PID":"1"}', '{"MESSAGE":"Started Session 3 of User alice.","_COMM":"systemd"}',
+               '', '{"__CURSOR":"s=1;i=2","MESSAGE":"usb 1-1: new high-speed USB device"}', '{"MESSAGE":null}']
+    for i in range(njd):
+        text, evs = G.gen_log(rng, rng.randint(1, 10), fmt='bare')
+        lines = []
+        k = 0
+        raw_lines = text.replace('\r\n', '\n').split('\n')
+        for l in raw_lines:
+            if l.strip() == '' or 'apparmor' not in l:
+                continue                # (foreign lines of the generated log: replaced by journald-shaped ones below)
+            if rng.random() < 0.35:
+                lines.append(rng.choice(foreign))
+            lines.append(_json.dumps({'MESSAGE': 'audit: type=1400 audit(1700000000.%03d:%d): %s' % (k, k, l), '_TRANSPORT': 'kernel'}, ensure_ascii=False))
+            k += 1
+        if rng.random() < 0.5:
+            lines.append(rng.choice(foreign))
+        p = ctx.path('jd%d.log' % i)
+        with open(p, 'w', encoding='utf-8', errors='surrogateescape') as f:
+            f.write('\n'.join(lines) + '\n')
+        q = subprocess.run([ctx.path('aa-log'), '-s', '-f', p, '-R'], stdout=subprocess.PIPE, stderr=subprocess.STDOUT, timeout=60)
+        os.remove(p)
+        got = [l for l in q.stdout.decode('utf-8', 'surrogateescape').split('\n') if l != '']
+        kept = [(e, j) for e, j in evs if 'apparmor' in raw_lines[j]] if evs else []
+        want = spec(kept, '')
+        gotn = []
+        for x in got:
+            x = re.sub(r'^audit: type=1400 audit\([0-9.:]*\): ', '', x)
+            gotn.append(TRAILING_PID.sub('', ' '.join(x.split(' ')).replace('  ', ' ')).rstrip(' '))
+        if q.returncode != 0 or gotn != want:
+            njf += 1
+            if njf <= 3:
+                ctx.violation('aa-log on a journald export (exit %d) does not show the events of the file: missing %r, unexpected %r' % (
+                    q.returncode, [l for l in want if l not in gotn][:1], [l for l in gotn if l not in want][:1]),
+                    {'journald_file': '\n'.join(lines)[:4000], 'expected': want, 'got': gotn, 'exit': q.returncode, 'output': q.stdout.decode('utf-8', 'replace')[:1500]})
+    ctx.cov['search']['journald'] = {'files': njd, 'failing': njf}
+    ctx.cov['evaluations'] += njd
     ctx.cov['evaluations'] += 9 * min(nbin, len(cases))
     ctx.cov['rule'] = ('log files generated from structured events (file, cap, net, signal, ptrace, dbus, mount) with repeats differing '
                        'in timestamp/pid, base-abstraction noise, foreign and garbled lines, CRLF, lines of 65535..200000 bytes, three '
@@ -201,7 +243,7 @@ def run(ctx):
         ctx.violation('obligation or correspondence broken: ' + '; '.join(broken)[:600], {'broken': broken}, concrete=False)
     ctx.cov['broken'] += broken
     ctx.assumptions += ['a pid or peer_pid that is the last field of a record (dbus-daemon messages without peer_label) is not stripped by the clean-up pattern; such records are judged with that field kept and are not repeated with another pid',
-                        'journald JSON input is exercised only through the bundled sample (GetJournalctlLogs is not modelled)',
+                        'journald JSON input: GetJournalctlLogs is not modelled; the real aa-log -s -f is run on generated journalctl exports and judged by the event-level oracle',
                         'lines above 64 MiB are outside the scanner limit set by the fix commit']
 
 
